@@ -165,7 +165,7 @@ Definition write_field (env : enum_env) (t : fty) : outcome fieldw :=
                   | Some (KCustom p) => only_ty (CStr None None (Some p) false)
                   | Some KInformal => only_ty (CStr None None None false)
                   end)
-                 (Some XKey) lst
+                 (Some (XKey f)) lst
                  (match e with Some e => Some (key_ext e) | None => None end)))
   | TFloat f64 l =>
       Ok (FW (if f64 then KdDouble else KdFloat) None (Some XFloat)
